@@ -344,6 +344,24 @@ def _run(ck, m):
             if not g:
                 unguarded.append(w)
         guarded = not unguarded
+        # the claim after the wait: nothing sleeps between the eligibility test and the claim it guards (the settle delay is there
+        # to let an older candidate's message arrive: testing before it and claiming after it defeats the delay)
+        stale = []
+        for w in wins:
+            if w in body:
+                continue
+            for x in tests:
+                if x in body:
+                    continue      # the per-iteration test guards the timeout claim; the poll interval sleeps after it by design
+                for (s2, tt, ft) in bool_switches(sb, x):
+                    if sb.dominates(tt, w) and not sb.dominates(ft, w):
+                        between = sb.reach_from([tt], stop=lambda q: q == w, include_start=True)
+                        if any(sb.term(y)['k'] == 'call' and callee_decl(sb.term(y)) == 'std::thread::sleep' for y in between):
+                            stale.append(sb.loc(w))
+        ck.ob('C07.f', short(sb.id), 'claim-follows-its-eligibility-test', not stale,
+              'the claim made after the wait follows its is_eligible() test without a sleep in between' if not stale else
+              'the claim at %s is guarded by an is_eligible() test taken BEFORE a sleep: an older node\'s candidacy that arrives during the '
+              'delay demotes this node, which then still claims the primary role; the older node, still StartingUp, follows it' % stale, sb.loc(h))
         wins = unguarded
         okf = guarded or not wins
         ck.ob('C07.f', short(sb.id), 'ack-wait-retests-eligibility', okf,
